@@ -6,6 +6,7 @@ import string
 from sxv import api
 from sxv.api import ord_, chr_, Src, text_of, eq
 
+from sxv.props import common
 from plasTeX import TeXDocument
 from plasTeX.TeX import TeX
 from plasTeX import Tokenizer as TK
